@@ -38,6 +38,11 @@ def run(tier, seed, replay=None):
         ck.mc(DIR, "AlgX", "MC_AlgX_4x3.cfg", timeout=3000)
         ck.mc(DIR, "AlgX", "MC_AlgX_3x4.cfg", timeout=3000)
     ck.mc(DIR, "AlgX", "NC_AlgX_skip.cfg", expect_violation="Complete")
+    # link level: build / cover / uncover on the four-way linked node structure refine the matrix-level operations
+    ck.mc(DIR, "DlxLinks", "MC_links23.cfg")
+    if tier == "thorough":
+        ck.mc(DIR, "DlxLinks", "MC_links33.cfg", timeout=3000)
+    ck.mc(DIR, "DlxLinks", "NC_links.cfg", expect_violation="Refines")
     # spec -> code: all matrices of the scope, exported by TLC with the expected number of covers
     cases = []
     for cfg in (["Export_2x2.cfg", "Export_3x2.cfg", "Export_2x3.cfg"] + (["Export_3x3.cfg"] if tier == "thorough" else [])):
